@@ -10,6 +10,7 @@ R12.gs         extractAndRemoveScalingAndShear: diag(scl) * Shear(shr) * R == in
                (Gram-Schmidt identity at a generic point, both determinant signs), 3-D and 2-D
 R12.zero       extractAndRemoveScalingAndShear (4x4 and 3x3): every value a row or shear is divided by is the value
                tested by the zero-scale guard (checkForZeroScaleInRow inlined: |scl| < 1 ...)
+R12.jacobi     one Jacobi rotation (3x3 and 4x4 eigen solvers): rho = mu1/mu2 only behind the strict test |mu2| > tol*|mu1|
 R12.shrt       extractSHRT: translation = last row; rotation angles = extractEulerXYZ of the orthonormalised matrix
 """
 import os
@@ -52,6 +53,15 @@ def gen_inline(t):
     tu.add('w_gs33', 'bool& r, %s& m, Vec2<%s>& s, %s& h' % (M3, E, E), 'r = extractAndRemoveScalingAndShear(m, s, h, false);', d=3)
     return tu
 
+def gen_jacobi(t):
+    """one Jacobi rotation of the eigen solvers (file-local templates of ImathMatrixAlgo.cpp, reached by including the .cpp)"""
+    E = ELEM[t][0]
+    hdr = '#include "%s"\nusing namespace IMATH_INTERNAL_NAMESPACE;\n' % os.path.join(build.REPO, 'src', 'Imath', 'ImathMatrixAlgo.cpp')
+    tu = TU('c12j_' + t, header=hdr)
+    tu.add('w_jac33', 'bool& r, Matrix33<%s>& A, Matrix33<%s>& V, Vec3<%s>& Z, const %s& tol' % (E, E, E, E), 'r = jacobiRotation<0, 1, 2>(A, V, Z, tol);', d=3)
+    tu.add('w_jac44', 'bool& r, Matrix44<%s>& A, Matrix44<%s>& V, Vec4<%s>& Z, const %s& tol' % (E, E, E, E), 'r = jacobiRotation<0, 1, 2, 3>(A, V, Z, tol);', d=4)
+    return tu
+
 def find_call(n, sub):
     seen = set(); stack = [n]
     while stack:
@@ -69,10 +79,10 @@ def out_atoms(call, idx, n, sz, lt):
 
 def main(rep, ws, tier):
     types = 'f' if tier == 'quick' else 'fd'
-    tuo = [gen_opaque(t) for t in types]; tui = [gen_inline(t) for t in types]; tus = [gen_shrt(t) for t in types]
-    an = Analysed(ws, tuo + tui + tus, rep)
-    for to, ti, ts, t in zip(tuo, tui, tus, types):
-        R = an[to]; Ri = an[ti]; E, sz, lt = ELEM[t]
+    tuo = [gen_opaque(t) for t in types]; tui = [gen_inline(t) for t in types]; tus = [gen_shrt(t) for t in types]; tuj = [gen_jacobi(t) for t in types]
+    an = Analysed(ws, tuo + tui + tus + tuj, rep)
+    for to, ti, ts, tj, t in zip(tuo, tui, tus, tuj, types):
+        R = an[to]; Ri = an[ti]; Rj = an[tj]; E, sz, lt = ELEM[t]
         def rat_all(ctx, xs): return [ctx.rat(x) for x in xs]
         for name, m in list(to.meta.items()) + list(ts.meta.items()):
             oid = '%s<%s>' % (name[2:], E)
@@ -206,6 +216,38 @@ def main(rep, ws, tier):
                     rep.ob(oid, rule, HOLDS if (okt and okr) else VIOLATED, 'translation = row 3 of the input; angles = extractEulerXYZ of the matrix left by extractAndRemoveScalingAndShear' if (okt and okr) else 'translation from input row 3: %s; rotation through extractEulerXYZ(orthonormalised): %s' % (okt, okr), where)
             except (P.NotPoly, PC.Undecided, vg.Unsupported, OverflowError) as e:
                 rep.ob(oid, rule, UNDECIDED, repr(e)[:300], where)
+        # one Jacobi rotation: rho = mu1/mu2 is formed only where |mu2| > tol*|mu1| (strictly), which excludes mu2 == 0
+        for name, m in tj.meta.items():
+            oid = 'jacobiRotation%d%d<%s>' % (m['d'], m['d'], E)
+            S = Rj.get(name)
+            if S is None:
+                rep.ob(oid, 'R12.jacobi', UNDECIDED, Rj.err.get(name, '')); continue
+            try:
+                d = m['d']
+                y = agg.slot_in('a1', 1, t)                      # A[0][1]
+                outs_ = [S.out('a0', 0, 1, 'i8'), S.out('a1', 0, sz, lt), S.out('a3', 0, sz, lt)]
+                J = T.mk('tuple', None, tuple(outs_), None)
+                from .common import hoist
+                bad = None; ndiv = 0
+                for lits, leaf in T.leaves(hoist(J), 4096):
+                    seen_ = set(); st_ = [leaf]; divs = []
+                    while st_:
+                        x = st_.pop()
+                        if x.id in seen_: continue
+                        seen_.add(x.id); st_.extend(x.args)
+                        if x.op == 'fdiv' and x.args[1].op == 'fmul' and any(a_ is y for a_ in x.args[1].args): divs.append(x)
+                    for x in divs:
+                        ndiv += 1
+                        mu2 = x.args[1]
+                        ok = any(v is False and c.op == 'fcmp' and c.attr == 'ole' and c.args[0].op in ('absi', 'call') and c.args[0].args[0] is mu2 for c, v in lits)
+                        if not ok and bad is None:
+                            bad = 'rho = mu1/mu2 is computed on a path that has not excluded |mu2| <= tol*|mu1| (strictly): for equal diagonal entries and a zero off-diagonal entry this is 0/0 (path: %s)' % ', '.join('%s=%s' % (T.show(c, 2)[:40], v) for c, v in lits[:4])
+                if ndiv == 0:
+                    rep.ob(oid, 'R12.jacobi', UNDECIDED, 'the quotient mu1/mu2 was not recognised', fn_where(S.fn))
+                else:
+                    rep.ob(oid, 'R12.jacobi', VIOLATED if bad else HOLDS, bad or '%d uses of rho = mu1/mu2, each behind the strict test |mu2| > tol*|mu1|' % ndiv, fn_where(S.fn))
+            except (vg.Unsupported, OverflowError) as e:
+                rep.ob(oid, 'R12.jacobi', UNDECIDED, repr(e)[:300], fn_where(S.fn))
         # zero-scale guards: every value the rows / shears are divided by went through checkForZeroScaleInRow
         for name, m in ti.meta.items():
             oid = '%s<%s>#zero' % (name[2:], E)
@@ -250,7 +292,7 @@ def main(rep, ws, tier):
                 rep.ob(oid, 'R12.gs', VIOLATED if e[0] else HOLDS, e[0] or e[1], where)
             except (P.NotPoly, PC.Undecided, vg.Unsupported, OverflowError) as e:
                 rep.ob(oid, 'R12.gs', UNDECIDED, repr(e)[:300], where)
-    rep.floor('factorisation obligations', len(rep.obs), 14 * len(types))
+    rep.floor('factorisation obligations', len(rep.obs), 16 * len(types))
     rep.assumptions += ['exact real arithmetic at a generic point; opaque callee out-parameters are free atoms', 'set* matrices as documented (C09)']
     rep.undecided_clauses += ['jacobiSVD, jacobiEigenSolver, min/maxEigenVector, procrustesRotationAndTranslation: convergence loops over run-time data - no static argument in reach establishes U*S*V^T = A',
                               'extractEulerXYZ / extractEulerZYX inverse-trigonometric correctness', 'near-singular inputs']
